@@ -866,7 +866,7 @@ class Store:
         if al.valfn is not None:
             self.havoc.add(al.id)
         fn = op.fn
-        if fn in ("add", "sub", "mul", "div", "neg", "abs", "fabs", "sqrt", "astype", "copy") and len(op.reads) >= 1:
+        if fn in ("add", "sub", "mul", "div", "neg", "abs", "fabs", "sqrt", "astype", "copy", "maybe_copy") and len(op.reads) >= 1:
             if self.elementwise(op):
                 return
         if fn == "sum" and "axis" in op.meta:
@@ -925,7 +925,7 @@ class Store:
                     e = self.lookup(key, Box(iv))
                     e = self.reexpress(e, v, vo, [0] * len(vo.view_grid_axes()))
                     vals.append(e)
-                if op.fn in ("astype", "copy"):
+                if op.fn in ("astype", "copy", "maybe_copy"):
                     val = vals[0]
                 else:
                     val = _scalar_op(op.fn, vals)
